@@ -244,6 +244,10 @@ def run_harness_stage(ctx, st):
         args += st["args_fn"](ctx)
     only = ctx.get("only_shard")
     shards = [only] if only is not None else list(range(nshards))
+    if only is None and st.get("mirror"):
+        # release mirror: shard 0 (several harnesses do one-off parts there) plus a seed-rotated fraction of the others
+        m = st["mirror"]
+        shards = [i for i in shards if i == 0 or i % m == ctx["seed"] % m]
 
     def one(i):
         r = run_shard(exe, ctx["tier"], ctx["seed"], i, nshards, ctx["workdir"], tag, args=args, env=st.get("env"),
@@ -370,6 +374,30 @@ def write_evidence(pid, spec, tier, seed, merged, wall, nviol, stage_info, statu
     os.replace(tmp, os.path.join(EVIDENCE, pid + ".json"))
 
 
+def _with_release_mirror(spec, tier):
+    """Every primary ASan harness stage is followed by a mirror on the release-like build (variant asanrel: -O2 -DNDEBUG,
+    same sanitizers) over a fraction of its shards. Header-only phosg code is compiled with the user's flags, and the
+    library itself by whatever CMAKE_BUILD_TYPE the user picks; NDEBUG and the optimiser are the two knobs that change
+    the meaning of a C++ program (assert() side effects, UB-based optimisation such as strict aliasing).
+    Opt out per stage with "no_mirror": True (e.g. stages that are themselves build-configuration variants)."""
+    out = []
+    frac = spec.get("mirror_fraction", {"quick": 4, "thorough": 2})
+    if os.environ.get("VERIF_FORCE_VARIANT") or os.environ.get("VERIF_NO_MIRROR") or spec.get("no_mirror"):
+        return list(spec["stages"])
+    for st in spec["stages"]:
+        out.append(st)
+        if st.get("kind", "harness") != "harness" or st.get("variant", "asan") != "asan" or st.get("no_mirror"):
+            continue
+        if not st.get("link_lib", True) and not st.get("mirror_header_only", True):
+            continue
+        m = dict(st)
+        m["variant"] = "asanrel"
+        m["tag"] = st.get("tag", st["name"]) + "@rel"
+        m["mirror"] = int(frac.get(tier, 4)) if isinstance(frac, dict) else int(frac)
+        out.append(m)
+    return out
+
+
 def run_check(pid, tier, seed, replay=None, keep=False):
     from . import props
     spec = props.SPECS[pid]
@@ -394,7 +422,7 @@ def run_check(pid, tier, seed, replay=None, keep=False):
     status = "held"
     skipped_builds = []
     try:
-        for st in spec["stages"]:
+        for st in _with_release_mirror(spec, tier):
             tiers = st.get("tiers")
             if tiers and tier not in tiers:
                 continue
@@ -422,6 +450,14 @@ def run_check(pid, tier, seed, replay=None, keep=False):
                                "wall_s": round(time.time() - ts, 1),
                                "violation_keys": sorted(r.get("violation_counts", {}).keys())}
             stage_info[tag].update({k: v for k, v in r.get("extra", {}).items() if not isinstance(v, (list, dict))})
+            if st.get("mirror"):
+                # the mirror re-runs part of the same workload on the release-like build: its violations and sanitizer
+                # observations count, its coverage does not (required classes must come from the primary run)
+                merged["counters"]["release_mirror:evaluations"] = merged["counters"].get("release_mirror:evaluations", 0) + int(r["evaluations"])
+                merged["counters"]["release_mirror:shards_run"] = merged["counters"].get("release_mirror:shards_run", 0) + int(r["extra"].get("shards", 0))
+                if r["evaluations"]:
+                    merged["classes"]["release-mirror:%s:ran" % tag] = int(r["evaluations"])
+                r = dict(r, evaluations=0, classes={}, counters={}, samples=[], extra={})
             merge(merged, r, prefix=(st.get("class_prefix", "")))
     except (Inconclusive, build.BuildError) as ex:
         print("INCONCLUSIVE property=%s tier=%s: %s" % (pid, tier, str(ex)[:6000]))
